@@ -32,6 +32,7 @@ class ProtoMonitor:
         g['bad_word'] = F           # C01 (watch clause): spawned while the last word from a dependency was not Ok
         g['bad_decide'] = F         # ... and the decision to start (build future created / service spawned) was taken in such a state
         g['double_svc'] = F         # C11: a service spawned while its previous instance was running
+        g['svc_down'] = F           # C11: a build script started while a service it depends on had no running instance
         g['any_failed'] = F
         g['start_after_fail'] = F   # C07: a transitive dependent of a failed target was started
         g['ok_on_fail'] = F         # C07: a target acknowledged (Ok) in the very step its execution failed
@@ -49,6 +50,15 @@ class ProtoMonitor:
             return g['nstart.%d' % d] != 0      # "has been started" during this invocation
         # aggregate: every dependency ready
         return z3.And([z3.Implies(sysm.dep[d][j], self.ready(sysm, S, g, j)) for j in range(d)] + [T])
+
+    def svc_up(self, sysm, S, d):
+        """Every service at or (through aggregates) below d has a running instance."""
+        k = sysm.kinds[d]
+        if k == 'service':
+            return S['proc.%d' % d]
+        if k == 'build':
+            return T
+        return z3.And([z3.Implies(sysm.dep[d][j], self.svc_up(sysm, S, j)) for j in range(d)] + [T])
 
     def trans(self, sysm):
         """trans[t][d]: d is a transitive dependency of t."""
@@ -68,6 +78,7 @@ class ProtoMonitor:
         bad_word = g['bad_word']
         bad_decide = g['bad_decide']
         double_svc = g['double_svc']
+        svc_down = g['svc_down']
         saf = g['start_after_fail']
         okf = g['ok_on_fail']
         # words received in this step
@@ -92,6 +103,10 @@ class ProtoMonitor:
             bad_decide = z3.Or(bad_decide, z3.And(decide, wbad))
             if sysm.kinds[t] == 'service':
                 double_svc = z3.Or(double_svc, z3.And(sp, S['proc.%d' % t], z3.Not(obs.get('reap', t))))
+            if sysm.kinds[t] == 'build':
+                # (before any shutdown began: while terminating, services and builds are stopped in no particular order)
+                down = z3.Or([z3.And(sysm.dep[t][d], z3.Not(self.svc_up(sysm, S, d))) for d in range(t)] + [F])
+                svc_down = z3.Or(svc_down, z3.And(sp, down, z3.ULE(S['main.phase'], 1), z3.Not(S['term.%d' % t])))
             dep_failed = z3.Or([z3.And(tr[t][d], g['failed.%d' % d]) for d in range(t)] + [F])
             saf = z3.Or(saf, z3.And(sp, dep_failed))
             res_ok = z3.Or(obs.get('build_result', (t, 0)), obs.get('build_result', (t, 1)))
@@ -120,6 +135,7 @@ class ProtoMonitor:
         g2['bad_word'] = bad_word
         g2['bad_decide'] = bad_decide
         g2['double_svc'] = double_svc
+        g2['svc_down'] = svc_down
         g2['start_after_fail'] = saf
         g2['ok_on_fail'] = okf
         g2['any_failed'] = z3.Or([g2['failed.%d' % t] for t in range(n)])
